@@ -94,9 +94,10 @@ Definition marks_strings (d d' : db) (name : bytes) (parts : list frame) (reply 
   else if beq name (bs "GET") || beq name (bs "MGET") then removed_keys d d'
   else if beq name (bs "GETSET") then (if ok && (len parts =? 3) then k1 else [])
   else if beq name (bs "MSET") then
-    (if (len parts <? 3) || (len parts mod 2 =? 0) then [] else mset_marks (tl parts))
+    (* 974d7d6: nothing is stored, hence nothing marked, unless every pair is well formed *)
+    (if (len parts <? 3) || (len parts mod 2 =? 0) then [] else if mset_valid (tl parts) then mset_marks (tl parts) else [])
   else if beq name (bs "DEL") then (if len parts <? 2 then [] else del_marks d (bulk_args (tl parts)))
-  else if beq name (bs "EXPIRE") || beq name (bs "PEXPIRE") || beq name (bs "PERSIST") then
+  else if beq name (bs "EXPIRE") || beq name (bs "PEXPIRE") || beq name (bs "PERSIST") || beq name (bs "PEXPIREAT") then
     (match reply with FInt 1 => k1 | _ => [] end)
   else if beq name (bs "FLUSHDB") then (if ok then map fst (d_data d) else [])
   else if beq name (bs "INCR") || beq name (bs "DECR") || beq name (bs "INCRBY") || beq name (bs "DECRBY")
